@@ -217,6 +217,7 @@ Mutated mutate(const Config &cfg, const Line &valid) {
     else relevant.push_back("disjoint_common");
   }
   for (auto &a : cfg.args) for (auto &ct : a.constraints) relevant.push_back(ct.first == CT_REQUIRES ? "missing_required" : "excluded_after_excluder");
+  for (auto &a : cfg.args) if (a.multiValue) { relevant.push_back("stray_value"); break; }   // where does a value list end?
   if (!relevant.empty() && pick(35)) m.name = oneOf(relevant);
   auto usesOf = [&](int a) { std::vector<size_t> v; for (size_t i = 0; i < m.line.size(); ++i) if (m.line[i].arg == a) v.push_back(i); return v; };
   auto insertAt = [&](const Use &u) { size_t p = *range<size_t>(0, m.line.size()); m.line.insert(m.line.begin() + static_cast<long>(p), u); };
